@@ -88,7 +88,10 @@ def wf_core(q, weak=1):
 
 def plan_C01(q, seed):
     return {
-        "jobs": wf_core(q) + [fam_job("WF", 40000 if q else 1000000, time_limit=15 if q else 300)] + san_samples(q),
+        "jobs": wf_core(q) + [fam_job("WF", 40000 if q else 1000000, time_limit=15 if q else 300)] + san_samples(q)
+        # reachable objects must also survive make_mut (incl. in place on stored handles), try_unwrap, raw round trips of their neighbours
+        + [rand_job("CONSUME", 80000 if q else 1500000, time_limit=20 if q else 300, extra=["--consume-bias", "3"], label="rand-CONSUME-live-e1")],
+        "accept_foreign": [["C12", "live"]],
         "assumptions": E1_ASSUME + SAN_ASSUME,
         "rule": "well-formed histories (recorded <= stored): every 2-object shape x drop order x Weak placement, sampled 3-object shapes, seeded random dynamic histories; after every operation every object the ledger says is reachable is dereferenced through every handle (canary, id) and every destructor start is checked against reachability. Non-trivial = at least one object was destroyed and a still-reachable object was dereferenced afterwards; distinct = distinct operation sequences",
         "require": {"stats.deref_after_destroy_obs": 1000, "paths.group": 100},
@@ -158,9 +161,11 @@ def plan_C02(q, seed):
     # elide unadopt count as well (premature destructions predicted by the known C13 finding stop the
     # history before any damage and are not reported here)
     jobs += [rand_job("ELIDE", 60000 if q else 1200000, time_limit=20 if q else 300, label="rand-ELIDE-memsafety-e1")]
+    jobs += [rand_job("ELIDE", 50000 if q else 1000000, time_limit=20 if q else 300, extra=["--consume-bias", "2"], label="rand-ELIDE-consume-memsafety-e1")]
+    jobs += [rand_job("CONSUME", 50000 if q else 1000000, time_limit=20 if q else 300, extra=["--consume-bias", "3"], label="rand-CONSUME-memsafety-e1")]
     return {
         "jobs": jobs,
-        "accept_foreign": [["C13", "once"], ["C13", "panic"]],
+        "accept_foreign": [["C13", "once"], ["C13", "panic"], ["C12", "once"], ["C12", "panic"]],
         "rule": "well-formed histories with Weak handles outside and inside values (plus histories that elide unadopt, for memory-safety reports only); exactly-once oracle on destructor starts (canary), allocator oracle (double/invalid free, write-after-free in quarantine mode), moved-out-field poison (H2) turning stale table reads into deterministic panics, AddressSanitizer reports and Miri UB errors as process deaths. Non-trivial = an object was destroyed while handles to it or a group teardown or a zero-count-with-adoptions teardown were involved; distinct = distinct operation sequences",
         "assumptions": E1_ASSUME + SAN_ASSUME,
         "require": {"paths.group": 100, "paths.with_adoptions": 100, "paths.dead_handle": 100},
@@ -178,6 +183,9 @@ def plan_C03(q, seed):
         rand_job("FULL", 60000 if q else 1500000, time_limit=20 if q else 200),
         rand_job("WF", 60000 if q else 1500000, time_limit=20 if q else 200),
         enum_job(3, 1, sample=32 if q else 1, time_limit=20 if q else 400),
+        # stale records *inside* a group do not excuse it from being collected (every real handle is
+        # still explained by a recorded adoption of a member); only a stale record held by an outsider does
+        rand_job("ELIDE", 60000 if q else 1200000, time_limit=20 if q else 300, label="rand-ELIDE-sync-e1"),
     ]
     jobs += [e3(fam_job("FULL", 100000, extra=["--max-n", "5"], lo=1 << 20), 30 if q else 600)]
     return {
@@ -195,6 +203,8 @@ def plan_C04(q, seed):
         fam_job("FULL", 40000 if q else 800000, time_limit=15 if q else 200),
         enum_job(2, 2),
         enum_job(3, 1, sample=32 if q else 1, time_limit=20 if q else 400),
+        # allocations given up by try_unwrap / make_mut and their bookkeeping must be returned as well
+        rand_job("CONSUME", 80000 if q else 1500000, weak=3, time_limit=20 if q else 300, extra=["--consume-bias", "3"], label="rand-CONSUME-mem-e1"),
     ]
     # independent second opinions on leak-free-predicted batches: LeakSanitizer at exit, Miri's leak checker
     lj = rand_job("WF", 16000 if q else 400000, weak=3, time_limit=25 if q else 300, lo=1 << 21, label="rand-WF-leakcheck-e2l")
@@ -216,12 +226,15 @@ def plan_C05(q, seed):
     jobs += san_samples(q, weak=4)
     # Weak handles to allocations given up by try_unwrap / make_mut must report dead as well
     jobs += [rand_job("CONSUME", 60000 if q else 1200000, weak=3, time_limit=20 if q else 300, extra=["--consume-bias", "3"], label="rand-CONSUME-weak-e1")]
+    # Weak handles created *during* a teardown, by destructors downgrading their own stored handles
+    # (to dying peers, to the dying object itself, to outsiders), must stay valid until dropped
+    jobs += [gen_job("weakescape", "WF", 60000 if q else 1200000, time_limit=20 if q else 300)]
     return {
         "jobs": jobs,
         "accept_foreign": [["C12", "weak"]],
         "rule": "well-formed histories dense in downgrade/upgrade/clone/drop of Weak handles held by the program and stored in values (to self, peers, outsiders); after every operation every Weak reports strong_count/weak_count equal to the ledger (0/0 once the target is destroyed), every upgrade result is compared with the ledger and the returned handle must be the original allocation; every dying value probes all Weak handles it owns from inside its destructor. Non-trivial = Weak observations were made in a history where objects were destroyed; distinct = distinct operation sequences",
         "assumptions": E1_ASSUME + SAN_ASSUME,
-        "require": {"stats.wprobes_dead": 1000, "stats.upgrades_none": 1000, "stats.upgrades_some": 1000, "paths.group": 100},
+        "require": {"stats.wprobes_dead": 1000, "stats.upgrades_none": 1000, "stats.upgrades_some": 1000, "paths.group": 100, "stats.weak_escapes_dead": 1000},
     }
 
 
@@ -258,9 +271,12 @@ def plan_C08(q, seed):
         rand_job("WF", 60000 if q else 1500000, objs=3, length=90, time_limit=20 if q else 300, label="rand-WF-dense-e1"),
         rand_job("ELIDE", 40000 if q else 800000, time_limit=25 if q else 300),
         fam_job("WF", 40000 if q else 1000000, time_limit=15 if q else 200),
+        # records must also disappear when an allocation is given up by try_unwrap / make_mut
+        rand_job("CONSUME", 60000 if q else 1200000, time_limit=20 if q else 300, extra=["--consume-bias", "3"], label="rand-CONSUME-links-e1"),
     ]
     return {
         "jobs": jobs,
+        "accept_foreign": [["C12", "links"]],
         "rule": "after every operation and at every destructor start, the link table of every live object (hook H1) is compared with the adoption ledger: forward/backward multiplicities per peer, self records, no zero-count entries, no entry naming an allocation that is not a live object; histories include redundant/unmatched unadopts, parallel adoptions, elided unadopts and interleaved collections, with address reuse (plain allocator mode) so that a stale entry would alias a new object. Non-trivial = tables with entries were inspected; distinct = distinct operation sequences",
         "require": {"stats.links_entries": 100000, "paths.group": 100, "paths.with_adoptions": 100},
     }
